@@ -162,6 +162,12 @@ pub fn check_once(u: &Universe, seq: &[String], reach: &BTreeSet<[u8; 32]>) -> O
         if u.kinds[&n] == "merge" {
             continue;
         }
+        if u.chains[&n][j].bytes[0] == b'q' {
+            if pos.contains_key(&u.chains[&n][j].label()) {
+                return Some(format!("quiet command {} wrote to seq", u.chains[&n][j].label()));
+            }
+            continue;
+        }
         expected += 1;
         let label = u.chains[&n][j].label();
         let Some(&p) = pos.get(&label) else {
@@ -178,7 +184,7 @@ pub fn check_once(u: &Universe, seq: &[String], reach: &BTreeSet<[u8; 32]>) -> O
             let al = u.label_of(&a);
             match pos.get(&al) {
                 Some(&q) if q < p => {}
-                None if u.by_id.get(&a).is_some_and(|(an, aj)| u.chains[an][*aj].bytes[0] == b'x') => {}
+                None if u.by_id.get(&a).is_some_and(|(an, aj)| matches!(u.chains[an][*aj].bytes[0], b'x' | b'q')) => {}
                 _ => return Some(format!("command {label} applied before its ancestor {al}")),
             }
         }
